@@ -7,7 +7,7 @@ mkdir -p build evidence
 python3 -c "import checklib; checklib.coq_makefile()"
 # build everything that builds; each check (re)builds the closure of its own Properties file and
 # reports a failure there, so one broken file must not take the whole setup down
-(cd coq && timeout 3000 make -k -j"$(nproc)") || echo "setup: some Coq files did not build (the checks that depend on them will say so)"
+(cd coq && timeout 3000 make -k -j8) || echo "setup: some Coq files did not build (the checks that depend on them will say so)"
 # warm the Go build cache for the harness (best effort; each check rebuilds from /repo anyway)
 python3 - <<'PY' || true
 import sys; sys.path.insert(0, '.')
